@@ -44,6 +44,148 @@ class Projector:
         return f"O{v}_{w}"
 
 
+class Capture:
+    """Harness-side recorder of task-list runs: the env-guarded hooks of cij/core/tasks.py (Resolve/Pop/Sort/Eval) plus wrappers on the
+    result stores (look-ups), on calculate() (its return = Done) and on get_*_results() (Gets).  One raw run per resolve()."""
+
+    def __init__(self):
+        self.runs = []          # each: {"strain", "keys", "raw": [(ev, fields, lookups)], "tl"}
+        self.looks = []
+        self._orig = {}
+
+    def __enter__(self):
+        import cij.core.tasks as T
+        from cij.util import _trace
+        if not _trace._ENABLED:
+            raise MachineryError("CIJ_VERIF_TRACE hooks are not enabled in this process")
+        cap = self
+        orig_get = T.PhononContributionTaskResults.__getitem__
+        orig_calc = T.PhononContributionTaskList.calculate
+        orig_iso = T.PhononContributionTaskList.get_isothermal_results
+        orig_adi = T.PhononContributionTaskList.get_adiabatic_results
+        self._orig = {"get": orig_get, "calc": orig_calc, "iso": orig_iso, "adi": orig_adi}
+
+        def getitem(self, _key):
+            p = _key if isinstance(_key, T.PhononContributionTaskParams) else T.PhononContributionTaskParams.create(*_key)
+            cap.looks.append((id(self), p))
+            return orig_get(self, _key)
+
+        def calculate(self):
+            r = orig_calc(self)
+            run = cap._run_of(self)
+            if run is not None:
+                run["raw"].append(("Done", {}, None))
+                cap.looks.clear()
+            return r
+
+        def getter(orig, name):
+            def w(self):
+                cap.looks.clear()
+                r = orig(self)
+                run = cap._run_of(self)
+                if run is not None:
+                    run["gets"][name] = list(cap.looks)
+                cap.looks.clear()
+                return r
+            return w
+
+        def sink(ev, f):
+            if ev == "Resolve":
+                cap.runs.append({"strain": f["strain"], "keys": [q[1] for q in f["queue"]], "raw": [("Resolve", {"keys": [q[1] for q in f["queue"]]}, None)],
+                                 "gets": {}, "tl": None, "tlid": None})
+                cap.looks.clear()
+                return
+            if not cap.runs:
+                return
+            run = cap.runs[-1]
+            if ev == "Eval":
+                run["raw"].append((ev, dict(f), list(cap.looks)))
+                cap.looks.clear()
+            elif ev == "Pop":
+                run["raw"].append((ev, {k: f[k] for k in ("key", "dep", "curr", "ntasks", "qlen", "task")}, None))
+            elif ev == "Sort":
+                run["raw"].append((ev, {"tasks": list(f["tasks"]), "data": list(f["data"]), "edges": list(f["graph"].edges())}, None))
+
+        # the task list a run belongs to is learnt at calculate(): the list whose data are the Sort event's data
+        T.PhononContributionTaskResults.__getitem__ = getitem
+        T.PhononContributionTaskList.calculate = calculate
+        T.PhononContributionTaskList.get_isothermal_results = getter(orig_iso, "iso")
+        T.PhononContributionTaskList.get_adiabatic_results = getter(orig_adi, "adi")
+        _trace.set_sink(sink)
+        return self
+
+    def _run_of(self, tl):
+        for run in reversed(self.runs):
+            if run["tlid"] == id(tl):
+                return run
+            if run["tlid"] is None:
+                srt = next((f for ev, f, _ in run["raw"] if ev == "Sort"), None)
+                if srt is not None and len(srt["data"]) == len(tl.data) and all(a is b for a, b in zip(srt["data"], tl.data)):
+                    run["tlid"], run["tl"] = id(tl), tl
+                    return run
+        return None
+
+    def __exit__(self, *exc):
+        import cij.core.tasks as T
+        from cij.util import _trace
+        _trace.set_sink(None)
+        T.PhononContributionTaskResults.__getitem__ = self._orig["get"]
+        T.PhononContributionTaskList.calculate = self._orig["calc"]
+        T.PhononContributionTaskList.get_isothermal_results = self._orig["iso"]
+        T.PhononContributionTaskList.get_adiabatic_results = self._orig["adi"]
+        return False
+
+
+def project_run(inst, run, rtol=1e-9, atol=1e-11):
+    """raw run of Capture -> (events for Trace_Sched | None, info)"""
+    tl = run["tl"]
+    store_name = {} if tl is None else {id(tl.modulus_isothermal_values): "iso", id(tl.modulus_adiabatic_values): "adi"}
+    proj = Projector(inst, run["strain"], rtol, atol)
+    keys = run["keys"]
+    events, known, info = [], [], {"projection": "ok", "error": None}
+    try:
+        ids = {}
+
+        def pid(task):
+            if id(task) not in ids:
+                ids[id(task)] = proj.params(task.task_params)
+            return ids[id(task)]
+        for ev, f, lk in run["raw"]:
+            if ev == "Resolve":
+                for k in f["keys"]:
+                    events.append({"ev": "Request", "key": "%d%d" % k.voigt})
+                events.append({"ev": "Start", "qlen": len(f["keys"])})
+            elif ev == "Pop":
+                new = f["curr"] == len(known)
+                if new:
+                    known.append(f["task"])
+                events.append({"ev": "Pop", "task": pid(f["task"]), "dep": "none" if f["dep"] is None else pid(known[f["dep"]]),
+                               "new": bool(new), "ntasks": int(f["ntasks"]), "qlen": int(f["qlen"])})
+            elif ev == "Sort":
+                events.append({"ev": "Sort", "order": [pid(t) for t in f["data"]],
+                               "edges": [[pid(f["tasks"][a]), pid(f["tasks"][b])] for a, b in f["edges"]]})
+            elif ev == "Eval":
+                events.append({"ev": "Eval", "task": pid(f["task"]), "reads": [[proj.params(p), store_name.get(sid, "?")] for sid, p in lk]})
+            elif ev == "Done":
+                events.append({"ev": "Done"})
+        for st in ("iso", "adi"):
+            for (sid, p), k in zip(run["gets"].get(st, []), keys):
+                events.append({"ev": "Get", "key": "%d%d" % k.voigt, "task": proj.params(p), "store": store_name.get(sid, "?")})
+        universe = sched.all_tasks(inst)
+        if any(pid(t) not in universe for t in known):
+            raise ProjectionError("task outside the specification's task universe (axis-order convention)")
+        allids = [pid(t) for t in known]
+        if len(set(allids)) != len(allids):
+            info["projection"] = "non-injective"
+            for e in events:
+                if e["ev"] == "Pop":
+                    e["ntasks"] = -1
+    except ProjectionError as pe:
+        info["projection"] = f"failed: {pe}"
+        events = None
+    return events, info
+
+
 def record(inst, duck, strain, keys, rtol=1e-9, atol=1e-11, tl=None):
     """Run resolve/calculate/get_* on the real class with recording.  -> (events, tasklist, results, info)"""
     import cij.core.tasks as T
